@@ -544,6 +544,43 @@ def r12_4(ctx, prog, crate):
         leafs = [s for bi, si, s in fp.stmts() if s["k"] == "assign" and s["rv"]["k"] == "agg" and s["rv"].get("variant") == "Leaf" and norm(s["rv"]["adt"]) == "entry::tree::EntryTree"]
         ctx.check(len(leafs) == 1 and all(fp.innermost_loop(bi) is None for bi, si, s in fp.stmts() if s["k"] == "assign" and s["rv"]["k"] == "agg" and s["rv"].get("variant") == "Leaf"),
                   "R12.4", ["from_path", "one-leaf"], "from_path builds %d leaves" % len(leafs), fp.where(0))
+    # get_children: the children of THE Parent sibling with that name - searched among all siblings, never stopped by a
+    # Leaf of the same name (a function and a module may share a name), so the result does not depend on insertion order
+    gc = prog.body("entry::tree::EntryTree::get_children", crate)
+    names_ = tables.variant_names(prog, "entry::tree::EntryTree", crate)
+    if ctx.anchor("R12.4", "EntryTree::get_children + ADT", (1 if gc else 0) + (1 if names_ else 0), 2):
+        ctx.saw(gc)
+        from lib.patheval import PathEval
+        from lib.symexpr import show
+        og = origins(gc, {"k": "move", "p": {"l": 0, "proj": [], "ty": ""}})
+        fm = [o[1] for o in og if o[0] == "call"]
+        ok = len(og) == 1 and len(fm) == 1 and fm[0].callee.endswith("::find_map")
+        if ok:
+            srcs = gc.prov.op_src(fm[0].args[0])
+            ok = any(z.kind == "call" and z.a.endswith(("::iter_mut", "::iter")) for z in srcs) and {z.label() for z in srcs if z.kind == "param"} == {"param:" + gc.param_name(1)}
+        ctx.check(ok, "R12.4", ["get_children", "find_map-over-all-siblings"],
+                  "get_children is not `tree.iter_mut().find_map(..)` over all siblings (result from %s): a search that stops at the first sibling with the name can be stopped by a Leaf"
+                  % [o[1].callee if o[0] == "call" else o[0] for o in og], gc.where(0))
+        cl = [x for x in prog.children(gc) if x.kind == "Closure"]
+        if ctx.check(len(cl) == 1, "R12.4", ["get_children", "predicate"], "closures: %d" % len(cl), gc.where(0)):
+            x = cl[0]
+            ctx.saw(x)
+            sums = PathEval(x).run()
+            pidx = names_.index("Parent") if "Parent" in names_ else None
+            bad = []
+            some = 0
+            for sm in sums or []:
+                if sm.ret[0] == "adt" and sm.ret[2] == "Some":
+                    some += 1
+                    is_parent = any(a == ("discr", ("arg", 2, ()), pidx) and p for a, p in sm.conds)
+                    name_eq = any(a[0] == "bool" and a[1][0] == "site" and a[1][1].rsplit("::", 1)[-1] == "eq" and p and
+                                  ("arg", 2, ("raw_name",)) in a[1][3] and any(y[0] == "upvar" for y in a[1][3]) for a, p in sm.conds)
+                    payload = sm.ret[3][0] if sm.ret[3] else None
+                    kids = payload in (("ptr", (2, ("children",))), ("sptr", (2, ("children",))), ("arg", 2, ("children",)))
+                    if not (is_parent and name_eq and kids):
+                        bad.append("Some(%s) when %s" % (show(payload) if payload else "?", [a for a, p in sm.conds]))
+            ctx.check(sums is not None and some >= 1 and not bad, "R12.4", ["get_children", "children-of-the-parent-with-that-name"],
+                      "the predicate yields %s; expected Some(children) exactly for a Parent whose raw_name equals the module" % (bad or "no Some"), x.where(0))
     ig = prog.body("entry::tree::EntryTree::insert_group", crate)
     if ctx.anchor("R12.4", "EntryTree::insert_group", 1 if ig else 0, 1):
         muts = [c.callee for c in ig.live_calls() if c.callee.startswith("std::vec::Vec::") and c.callee.rsplit("::", 1)[-1] in ("push", "insert", "remove", "retain", "clear", "pop", "truncate")]
